@@ -4,18 +4,14 @@ import json, os, subprocess
 V = os.path.dirname(os.path.dirname(os.path.abspath(__file__)))
 props = [json.loads(l) for l in open(os.path.join(V, 'properties.jsonl'))]
 
-CHECKS = {
- 'C18': dict(
-   text='Decides, for every CFG path of the eight file readers, the structural necessary conditions of crash/leak/false-success freedom: no exit edge carries an open FILE* (R-PAIR, incl. the ref-counted RawSource idiom and its guard), every loop makes progress on every path (R-LOOP), nullable results are tested before use (R-NULL), success returns are dominated by the ENDLIB arm and error exits return an empty value and set the error code (R-MUSTPASS), every gdsii_read_record result is checked and its short-read tests compare the fread result with the requested count (R-ERRCHK, linear normalisation), copies into fixed-size objects are bounded (R-BOUND). All paths / all exits, no input bound. Does not decide absence of every memory error for every byte pattern, nor checksum coincidences.',
-   note='Trusted: clang 14 front end and clang::CFG, tools/gx/gx.cc, sa/*.py; libc model (fopen may return NULL, fclose releases, fread returns item count); callee summaries only for functions under /repo. Path-insensitive joins only add states, so a pass covers all feasible paths.',
-   technique='custom typestate / dominance / loop-progress dataflow over the clang CFG (libTooling extractor + Python rules)',
-   design='§4 C18'),
- 'C20': dict(
-   text='Decides structural necessary conditions of the container models on all paths: (1) check-then-use null contradictions in every property-list function (a pointer the function itself null-tests, re-assigned from a list tail and dereferenced untested); (2) the four open-addressing tables (Map<T>, Set<T>, TagMap, StyleMap; every member instantiated explicitly) have control skeletons equal to a frozen reference after abstracting the table-specific empty-slot predicate (probe wrap at items+capacity, load-factor test before get_slot, count++ only on an empty slot, del = empty + count-- + cluster re-insertion until the first empty slot, resize re-inserts every occupied item then clears, next bounded by items+capacity), payload obligations (old slot emptied, every item field written), count==0 guard before every look-up; (3) Array<T> bookkeeping; (4) property-list copies append at the tail and deep-copy. Does not decide equivalence with an abstract map/multimap over operation histories, and nothing about sort (value-dependent).',
-   note='Trusted: clang 14 front end, gx, sa rules; the frozen reference skeletons in sa/props/C20.py were confirmed by reading the pinned tree (a consistent refactor of all tables is reported as differing from the reference, exit 1 naming the method, to be re-confirmed by a human); hash() not analysed.',
-   technique='clone-family comparison with predicate abstraction over typed ASTs + nullness dataflow (check-then-use contradiction) over the clang CFG',
-   design='§4 C20'),
-}
+import importlib, sys, glob
+sys.path.insert(0, V)
+CHECKS = {}
+for f in sorted(glob.glob(os.path.join(V, 'sa', 'props', 'C*.py'))):
+    pid = os.path.basename(f)[:-3]
+    mod = importlib.import_module('sa.props.' + pid)
+    if hasattr(mod, 'MANIFEST'):
+        CHECKS[pid] = mod.MANIFEST
 NA = {}
 DEFAULT_NA = 'rules designed in DESIGN.md §4 but not implemented yet; not claimed until they are'
 
